@@ -173,6 +173,7 @@ class Executor:
         self.unresolved: list = []
         self.n_calls = 0
         self.lambda_defs: dict = {}
+        self._typecache: dict = {}
 
     # ------------------------------------------------------------------ types
     def _infer_attr_types(self) -> dict:
@@ -196,11 +197,26 @@ class Executor:
                     out[(k.qname, n.targets[0].attr)] = ann[n.value.id]
         return out
 
+    def _concrete(self, cls):
+        """`self` in a method of a mixin / abstract base is an instance of the class that is actually instantiated: when
+        every class of the package that inherits from cls lies on one chain, the most derived one stands for `self`
+        (its MRO contains cls, so nothing defined by cls is lost, and what the siblings of a mixin define is found)."""
+        key = ('concrete', cls.qname)
+        if key not in self._typecache:
+            subs = [k for k in self.p.classes.values() if k is not cls and cls in self.p.mro(k)]
+            best = cls
+            if subs:
+                leaf = max(subs, key=lambda k: len(self.p.mro(k)))
+                if all(k in self.p.mro(leaf) for k in subs):
+                    best = leaf
+            self._typecache[key] = best
+        return self._typecache[key]
+
     def typeof(self, t, func: Optional[Func]) -> Optional[Klass]:
         tg = tag(t)
         if tg == 'p' and func is not None:
             if t[1] == 'self' and func.cls is not None:
-                return func.cls
+                return self._concrete(func.cls)
             if t[1] == 'self' and func.cls is None:
                 # a local function of a method closes over the method's self
                 par = func.parent
@@ -1534,6 +1550,17 @@ class _Run:
         if T.is_const(recv) and isinstance(recv[1], str) and name == 'join' and len(args) == 1 and not kws and \
                 tag(args[0]) in ('tuple', 'list') and all(T.is_const(a) and isinstance(a[1], str) for a in args[0][1]):
             return C(recv[1].join(a[1] for a in args[0][1]))
+        # aliases and keyword spellings of pandas methods
+        name = {'isnull': 'isna', 'notnull': 'notna', 'tolist': 'to_list'}.get(name, name)
+        if name == 'copy' and not args and dict(kws) == {'deep': T.TRUE} and tag(recv) not in ('dict', 'list', 'g'):
+            return ('call', ('g', 'copy.deepcopy'), (recv,), ())        # frame.copy(deep=True) is what deepcopy(frame) does
+        if name == 'drop' and not args:
+            kw = dict(kws)
+            if set(kw) <= {'index', 'inplace'} and 'index' in kw:
+                args, kws = (kw['index'],), tuple((k, v) for k, v in kws if k != 'index')
+            elif set(kw) <= {'columns', 'inplace'} and 'columns' in kw:
+                args = (kw['columns'],)
+                kws = tuple(sorted([(k, v) for k, v in kws if k != 'columns'] + [('axis', C(1))], key=lambda kv: kv[0]))
         if name in ('apply', 'map', 'transform', 'applymap') and args and tag(args[0]) == 'g':
             args = (self._function_as_lambda(args[0]),) + tuple(args[1:])
         if name in METHOD_SIGS:
@@ -1584,7 +1611,7 @@ class _Run:
         # a memoised function is not re-executed on every call: never looked through (its result is a shared object)
         memo = any(d in ('functools.lru_cache', 'functools.cache', 'functools.cached_property') for d in f.decorators)
         do_inline = not memo and (closure or ((not is_nested) and self.depth < self.ex.max_depth and
-                                              self.ex.inline(f.qname, self.depth)))
+                                              (self.ex.inline(f.qname, self.depth) or _trivial_accessor(f))))
         self.emit('call', node, st, call=t, inlined=do_inline)
         if not do_inline:
             return t
@@ -1802,6 +1829,21 @@ def _subst_cv(t, mapping, d):
         return tuple(_subst_cv(x, mapping, d) if isinstance(x, tuple) else x for x in t)
     new = tuple([t[0]] + [_subst_cv(x, mapping, d) if isinstance(x, tuple) else x for x in t[1:]])
     return T.rebuild(new) if new != t else t
+
+
+_TRIVIAL: dict = {}
+
+
+def _trivial_accessor(f) -> bool:
+    """A method whose whole body is `return <expression without calls>` (a getter behind a property, `_get_prms`): looked
+    through under every inlining policy, like the property getters themselves."""
+    k = id(f.node)
+    if k not in _TRIVIAL:
+        body = [n for n in f.node.body if not (isinstance(n, ast.Expr) and isinstance(n.value, ast.Constant))]
+        _TRIVIAL[k] = not f.decorators and '<locals>' not in f.qname and len(body) == 1 and isinstance(body[0], ast.Return) and \
+            body[0].value is not None and not any(isinstance(n, (ast.Call, ast.Yield, ast.Await, ast.Lambda))
+                                                  for n in ast.walk(body[0].value))
+    return _TRIVIAL[k]
 
 
 def _constant_items(it):
